@@ -216,16 +216,17 @@ func (u *uploader) ListParts(bucket, object string, uploadID UploadID, marker in
 	}
 
 	var cnt int64
-	for partNumber, part := range mpu.parts[marker:] {
-		if part == nil {
+	for partNumber, part := range mpu.parts {
+		// The marker is the number of the last part of the previous page:
+		if part == nil || partNumber <= marker {
 			continue
 		}
 
 		if cnt >= limit {
 			result.IsTruncated = true
-			result.NextPartNumberMarker = partNumber
 			break
 		}
+		result.NextPartNumberMarker = partNumber
 
 		result.Parts = append(result.Parts, ListMultipartUploadPartItem{
 			ETag:         part.ETag,
